@@ -360,3 +360,38 @@ Section SafeQueries.
       apply S4. cbn [mem_key]. now rewrite !N.eqb_refl.
   Qed.
 End SafeQueries.
+
+(* a program that loads before it gets has no reachable panic at all *)
+Lemma safe_eval_np {A} f (p : prog A) L : buf_ok f -> safe L p -> eval f p <> Panic.
+Proof.
+  intros Hf H. induction H as [L a|L e|L s e k H IH|L s e k Hm H IH|L n k H IH]; cbn [eval]; try discriminate.
+  - destruct (blen f <? e); [discriminate|exact IH].
+  - apply IH. apply view_ok. exact Hf.
+  - exact IH.
+Qed.
+Theorem call_no_panic w {A} (p : prog A) r : buf_ok (content w) -> inv w r -> safe [] p ->
+  fst (run_real w p r) <> Panic.
+Proof.
+  intros Hf Hi Hs. destruct (call_error_or_same w p r Hf Hi Hs) as [[E|E] _]; rewrite E; [|discriminate].
+  apply (safe_eval_np _ _ _ Hf Hs).
+Qed.
+
+(* open_stream: fault-free it computes the content-only reading; under any schedule that or an
+   I/O error; in both cases the reader it leaves behind satisfies the invariant *)
+Theorem open_stream_exact fam w : no_faults w -> buf_ok (content w) ->
+  fst (open_stream fam w) = eval (content w) (open_prog fam) /\ inv w (snd (open_stream fam w)).
+Proof.
+  intros NF Hf. unfold open_stream. pose proof (inv_new w) as H0. unfold new_reader in *. rewrite NF in *.
+  destruct (call_history_free w (open_prog fam) _ NF Hf H0 (safe_open fam)) as [E Hi].
+  destruct (run_real w (open_prog fam) _) as [x r1]. cbn [fst snd] in *. split; [exact E|apply inv_clear; exact Hi].
+Qed.
+Theorem open_stream_sound fam w : buf_ok (content w) ->
+  err_or (fst (open_stream fam w)) (eval (content w) (open_prog fam)) /\
+  (is_ok (fst (open_stream fam w)) = true -> inv w (snd (open_stream fam w))).
+Proof.
+  intros Hf. unfold open_stream. pose proof (inv_new w) as H0. unfold new_reader in *.
+  destruct (faults w 0); cbn [fst snd].
+  - split; [right; reflexivity|discriminate].
+  - destruct (call_error_or_same w (open_prog fam) _ Hf H0 (safe_open fam)) as [E Hi].
+    destruct (run_real w (open_prog fam) _) as [x r1]. cbn [fst snd] in *. split; [exact E|intros _; apply inv_clear; exact Hi].
+Qed.
